@@ -50,6 +50,24 @@ class ExprMixin2:
                     return [(st, self.lit(self.repo.const(cls, name)))]
             if name == "__class__":
                 return [(st, V("clsof", t=self.as_ref(v, st), cls=cls))]
+            if cls and name in ("value", "name") and self.repo.has_class(cls) and self.field_type(cls, name) is None:
+                # a member of an Enum defined in the repository: its value / name come from the live import of the class
+                from .source import EnumConst
+                members = {}
+                for m in self.repo.cls(cls)["consts"]:
+                    c_ = self.repo.const(cls, m)
+                    if isinstance(c_, EnumConst) and c_.name == m:
+                        members[m] = c_
+                if members:
+                    r = self.as_ref(v, st)
+                    lits = [(static_ref(f"enum:{cls}.{m}"), self.lit(c_.value if name == "value" else m)) for m, c_ in sorted(members.items())]
+                    kinds = {l.k for _, l in lits}
+                    if len(kinds) == 1 and kinds <= {"str", "int"}:
+                        st.assume(z3.Or([r == ref for ref, _ in lits]))
+                        t = lits[-1][1].t
+                        for ref, l in lits[:-1]:
+                            t = z3.If(r == ref, l.t, t)
+                        return [(st, V(kinds.pop(), z3.simplify(t)))]
             if (cls, name) in self.ext_attrs:
                 return [(st, self.ext_attrs[(cls, name)](self, st, v))]
             ft = self.field_type(cls, name) if cls else self.unique_field(name)
@@ -63,6 +81,28 @@ class ExprMixin2:
                 return [(self.raise_exc(st, "AttributeError"), None)]
             if ft is None:
                 ft = ("ast", "val") if name in self.ast_field_names else None
+            if ft is None and k == "val" and cls is None and name in ("replace", "encode", "decode", "upper"):
+                # a str / bytes method on a value of unknown kind: decided per kind of the value; anything else has no such attribute
+                out = []
+                for s1, is_s in self.branch(st, Val.is_S(v.t), f".{name} on a str"):
+                    if is_s:
+                        if getattr(self, f"m_str_{name}", None) is None:
+                            out.append((self.raise_exc(s1, "AttributeError"), None))
+                        else:
+                            out.append((s1, V("bound", xs=(V("str", Val.s(v.t)), name))))
+                        continue
+                    for s2, is_y in self.branch(s1, Val.is_Y(v.t), f".{name} on bytes"):
+                        if is_y:
+                            if getattr(self, f"m_bytes_{name}", None) is None:
+                                out.append((self.raise_exc(s2, "AttributeError"), None))
+                            else:
+                                out.append((s2, V("bound", xs=(V("bytes", Val.y(v.t)), name))))
+                            continue
+                        for s3, is_r in self.branch(s2, Val.is_R(v.t), f".{name} on an object"):
+                            if is_r:
+                                raise Unsupported(f"{self.where(node)}: method .{name} on an object of unknown class")
+                            out.append((self.raise_exc(s3, "AttributeError"), None))
+                return out
             if ft is None and k == "val" and cls is None and name in ("split", "rsplit", "startswith", "endswith", "strip", "find", "count"):
                 st.log.append(("assume-str", name, getattr(node, "lineno", 0)))
                 return [(st, V("bound", xs=(V("str", Val.s(v.t)), name)))]
@@ -91,16 +131,25 @@ class ExprMixin2:
                 return [(st, V("tuple", xs=xs))]
             t = st.read(f"{decl}.{name}", r, sort_of_type(ty))
             if name == "info" and decl == "fickle.Opcode" and self.class_info is not None and cls:
-                ci = self.class_info(self, st, cls)
-                if ci is not None and len(self.repo.subclasses(cls)) == 1:
-                    st.assume(t == box(ci))         # instances do not shadow the class attribute set by __init_subclass__ (except via the ctor)
+                # instances do not shadow the class attribute set by __init_subclass__ (except via the ctor): per dynamic class
+                subs = self.repo.subclasses(cls)
+                if len(subs) == 1:
+                    ci = self.class_info(self, st, cls)
+                    if ci is not None:
+                        st.assume(t == box(ci))
+                elif len(subs) <= 16:
+                    tag = st.cls_of(r)
+                    for sc in subs:
+                        ci = self.class_info(self, st, sc)
+                        if ci is not None:
+                            st.assume(z3.Implies(tag == clsid(sc), t == box(ci)))
             if decl == "ast":
                 # ghost invariant: whatever an AST node field refers to carries the node-owned flag (set at every store into such a field)
                 st.assume(z3.Implies(Val.is_R(t), z3.Select(st.comp("list.nodeowned"), Val.r(t))))
             if sort_of_type(ty) == Val:
                 return [(st, self.unbox(t, ty, st))]
             return [(st, V(ty, t))]
-        if k in ("str", "bytes", "seq", "tuple", "int", "const", "float", "iter", "gen", "exc"):
+        if k in ("str", "bytes", "seq", "tuple", "int", "const", "float", "iter", "gen", "exc", "priotable"):
             return [(st, V("bound", xs=(v, name)))]
         if k in ("clsof", "opaque") and name in ("__name__", "__qualname__", "__module__"):
             return [(st, V("str", fresh("clsname", Str)))]
@@ -155,7 +204,12 @@ class ExprMixin2:
         return V("builtin", cls=f"{mod}.{name}")
 
     def class_attr(self, cls, name, st, node):
+        if (cls, name) in self.ext_attrs:
+            return self.ext_attrs[(cls, name)](self, st)
         if self.repo.has_class(cls):
+            for k in self.repo.cls(cls)["mro"]:
+                if (k, name) in self.ext_attrs:
+                    return self.ext_attrs[(k, name)](self, st)
             a = self.repo.attr(cls, name)
             if a is not None:
                 info = a[0]
@@ -545,9 +599,22 @@ class ExprMixin2:
 
     def ev_BinOp(self, e, st):
         out = []
-        for s, (a, b) in self.ev_list([e.left, e.right], st):
+        for s, vs in self.ev_list([e.left, e.right], st):
             if s.status != "run":
                 out.append((s, None))
+                continue
+            a, b = vs
+            if isinstance(e.op, ast.Add) and {a.k, b.k} in ({"bytes", "val"}, {"str", "val"}) and (a if a.k == "val" else b).cls is None:
+                # bytes / str + a value of unknown kind: concatenation when the kinds agree, TypeError otherwise
+                kind = a.k if a.k != "val" else b.k
+                other = a if a.k == "val" else b
+                rec, acc = (Val.is_Y, Val.y) if kind == "bytes" else (Val.is_S, Val.s)
+                for s1, same in self.branch(s, rec(other.t), f"+ with a {kind} operand"):
+                    if same:
+                        o = V(kind, acc(other.t))
+                        out.append((s1, self.binop(ast.Add, o if a.k == "val" else a, o if b.k == "val" else b, s1, e)))
+                    else:
+                        out.append((self.raise_exc(s1, "TypeError"), None))
                 continue
             out.append((s, self.binop(type(e.op), a, b, s, e)))
         return out
@@ -681,6 +748,16 @@ class ExprMixin2:
                 return x.t
             if x.k == "int":
                 return self.rules.INT2STR(x.t)
+            if x.k == "val" and x.cls is None:
+                # str() of a boxed value: decimal text for ints, the text itself for strs, a function of the value otherwise
+                if not hasattr(self, "_STR_OF"):
+                    self._STR_OF = z3.Function("STR_OF", Val, Str)
+                from .state import entails
+                if entails(st.hyps(), Val.is_I(x.t), 2000):
+                    return self.rules.INT2STR(Val.i(x.t))
+                if entails(st.hyps(), Val.is_S(x.t), 2000):
+                    return Val.s(x.t)
+                return self._STR_OF(x.t)
         return fresh("text", Str)
 
     def ev_Lambda(self, e, st):
